@@ -108,3 +108,24 @@ mut("c15-known-json-null-guard-continues", "C15", "MUST", "json/structure.go",
 mut("c15-keep-known-demorgan", "C15", "KEEP", "hclsyntax/expression_ops.go",
     "\t\t\tcase !lhs.IsKnown() && rhs.False():\n\t\t\t\treturn cty.UnknownVal(cty.Bool).RefineNotNull(), lhsDiags\n\t\t\tcase !rhs.IsKnown() && lhs.False():\n\t\t\t\treturn cty.UnknownVal(cty.Bool).RefineNotNull(), rhsDiags\n\t\t\t}\n\n\t\t\treturn cty.NilVal, nil\n\t\t},\n\t}\n\tOpLogicalAnd",
     "\t\t\tcase !(lhs.IsKnown() || !rhs.False()):\n\t\t\t\treturn cty.UnknownVal(cty.Bool).RefineNotNull(), lhsDiags\n\t\t\tcase !(rhs.IsKnown() || !lhs.False()):\n\t\t\t\treturn cty.UnknownVal(cty.Bool).RefineNotNull(), rhsDiags\n\t\t\t}\n\n\t\t\treturn cty.NilVal, nil\n\t\t},\n\t}\n\tOpLogicalAnd", "")
+
+# ---- C14 ------------------------------------------------------------------------------------------
+mut("c14-start-col-off-by-one", "C14", "MUST", "hclsyntax/token.go",
+    "start.Column += startOfs + f.StartByte - f.Pos.Byte", "start.Column += startOfs + f.StartByte - f.Pos.Byte + 1", "linform")
+mut("c14-end-byte-start", "C14", "MUST", "hclsyntax/token.go",
+    "end.Byte = endOfs + f.StartByte", "end.Byte = endOfs", "linform")
+mut("c14-crlf-two-lines", "C14", "MUST", "hclsyntax/token.go",
+    "(len(seq) == 2 && seq[0] == '\\r' && seq[1] == '\\n')", "(len(seq) == 2 && seq[1] == '\\n')", "linform")
+mut("c14-cr-is-newline", "C14", "MUST", "hclsyntax/token.go",
+    "(len(seq) == 1 && seq[0] == '\\n')", "(len(seq) == 1 && (seq[0] == '\\n' || seq[0] == '\\r'))", "linform")
+mut("c14-column-not-reset", "C14", "MUST", "hclsyntax/token.go",
+    "\t\t\tend.Line++\n\t\t\tend.Column = 1\n", "\t\t\tend.Line++\n\t\t\tend.Column = 0\n", "linform")
+mut("c14-pos-not-threaded", "C14", "MUST", "hclsyntax/token.go",
+    "\tf.Pos = end\n", "\tf.Pos = start\n", "linform")
+mut("c14-bytes-whole", "C14", "MUST", "hclsyntax/token.go",
+    "\t\tBytes: f.Bytes[startOfs:endOfs],", "\t\tBytes: f.Bytes[startOfs:],", "linform")
+mut("c14-keep-locals", "C14", "KEEP", "hclsyntax/token.go",
+    "\tend := start\n\tend.Byte = endOfs + f.StartByte\n", "\tendByte := endOfs + f.StartByte\n\tend := start\n\tend.Byte = endByte\n", "")
+mut("c14-keep-demorgan", "C14", "KEEP", "hclsyntax/token.go",
+    "\t\tif (len(seq) == 1 && seq[0] == '\\n') || (len(seq) == 2 && seq[0] == '\\r' && seq[1] == '\\n') {\n\t\t\tend.Line++\n\t\t\tend.Column = 1\n\t\t} else {\n\t\t\tend.Column++\n\t\t}",
+    "\t\tisLF := len(seq) == 1 && seq[0] == '\\n'\n\t\tisCRLF := len(seq) == 2 && seq[0] == '\\r' && seq[1] == '\\n'\n\t\tif !isLF && !isCRLF {\n\t\t\tend.Column++\n\t\t} else {\n\t\t\tend.Line++\n\t\t\tend.Column = 1\n\t\t}", "")
